@@ -264,7 +264,15 @@ struct World {
 		in.logExpectMethod = false;
 		// records for states that define no callbacks (bare states, a headless root) are legitimate in
 		// verbose builds, and for the react family in every logging build
-		if (!in.sees(in.logSid) || !visibleState(in.logSid)) { stats.add("c16_records_for_invisible_states"); return; }
+		if (!in.sees(in.logSid) || !visibleState(in.logSid)) {
+			// non-verbose logging records deliveries to states that define the callback only (the react family and query
+			// are function templates in the library's defaults and are recorded for every state)
+			const bool templated = in.logM == Method::PRE_REACT || in.logM == Method::REACT || in.logM == Method::POST_REACT || in.logM == Method::QUERY;
+			if (HAS_LOG && !HAS_VERBOSE && !templated && in.logSid != ROOT)
+				V("C16", fmt("method-record-for-state-without-callback|%s", mname(in.logM)), fmt("non-verbose logging recorded (%u,%s) although the class of state %u defines no callback; %s", in.logSid, mname(in.logM), in.logSid, tail().c_str()));
+			stats.add("c16_records_for_invisible_states");
+			return;
+		}
 		// a head whose class leaves a plan outcome callback out: the event happens, nothing observable runs
 		if (!cfg::defines(in.logSid, in.logM) && (in.logM == Method::PLAN_SUCCEEDED || in.logM == Method::PLAN_FAILED)) { stats.add("c16_records_for_undefined_outcome_callbacks"); return; }
 		V("C16", fmt("method-record-without-delivery|%s", mname(in.logM)), fmt("method record (%u,%s) was not followed by that delivery (next: %s); %s", in.logSid, mname(in.logM), because, tail().c_str()));
